@@ -3,7 +3,7 @@ from __future__ import annotations
 
 PROP = "C03"
 BUDGET = {
-    "quick": dict(shards=16, cases=1920, deadline=70),
+    "quick": dict(shards=16, cases=1280, deadline=70),
     "thorough": dict(shards=16, cases=10000, deadline=1200),
 }
 DECIDING = ["sm.write", "fileio.write_file"]
